@@ -59,7 +59,7 @@ class Ctx:
     # ---- finishing
     def finish(self):
         wall = time.time() - self.t0
-        ev_dir = os.path.join(VERIF, "evidence")
+        ev_dir = os.environ.get("VERIF_EVIDENCE_DIR") or os.path.join(VERIF, "evidence")
         os.makedirs(ev_dir, exist_ok=True)
         vpath = os.path.join(ev_dir, f"{self.pid}.violations.json")
         distinct = {(r, i if isinstance(i, str) else json.dumps(i, sort_keys=True)) for r, w, i, nt in self.instances if nt}
